@@ -484,6 +484,13 @@ def check_invariance(case):
         raise Violation("two-step", "propagate_to(a).propagate_to(b) differs from propagate_to(b)")
     if not (two == direct):
         raise Violation("two-step-eq", "Frame.__eq__ says two-step and one-step propagation differ")
+    # (b') the intermediate distance given as whole millimetres / centimetres in an integer variable
+    mid_mm = int(round((D + 0.37) * 1000)) + 1          # not a whole number of metres
+    for unit, val in (("mm", mid_mm), ("cm", int(round((D + 0.37) * 100)) + 1)):
+        via_int = fr.propagate_to(sc.scalar(val, unit=unit, dtype="int64")).propagate_to(far)
+        if not frames_close(via_int, direct):
+            raise Violation("two-step-int", f"propagate_to({val} {unit}, int64).propagate_to({far.value} m) differs from "
+                                            f"propagate_to({far.value} m)")
     # (c) lookup by distance equals manual propagation of the last frame at or before it
     looked = seq[far]
     if not frames_close(looked, direct):
